@@ -456,7 +456,18 @@ def handle (d : DSt) (n : Nat) (line : String) : IO DSt := do
       let mut d := { d with steps := d.steps + 1, deletes := d.deletes + 1 }
       if thr.isSome then d := { d with delThrew := d.delThrew + 1 }
       if found then
-        let (mst, mres) := deleteObject d.st k c thr
+        -- the ORDER in which `DependencyGraph::GetChildren` hands out the dependents is the implementation's business
+        -- (oracle); it shows only when a fault ends the loop (0ce9ca7): the dependents the implementation got rid of
+        -- came before the one that failed, so the model visits them first
+        -- … then the one whose deletion failed (the object named by the fault, or an object it depends on), and only then
+        -- the dependents the implementation never reached
+        let failing : List Key := match thr with
+          | some f => dependentsF (d.st.objs.length + 1) (d.st.deps.map (fun e => (e.2, e.1))) [f]
+          | none => []
+        let depsO := d.st.deps.filter (fun e => !after.has e.1) ++
+          d.st.deps.filter (fun e => after.has e.1 && failing.contains e.1) ++
+          d.st.deps.filter (fun e => after.has e.1 && !failing.contains e.1)
+        let (mst, mres) := deleteObject { d.st with deps := depsO } k c thr
         if !d.tainted && some mres != res then
           d ← mismatch d n "delete-result" s!"impl={repr res} model={repr mres}"
         if !d.tainted && viewSt mst != viewWorld after then
